@@ -13,7 +13,7 @@ from .. import doccheck, gen, ooxml, sem
 
 PROFILES = {
     "default": {"para_mark_rev": 0.08},
-    "separated_identical": {"para_mark_rev": 0.08, "fmt": 0.35, "split_identical": 0.5, "bookmark": 0.2, "proof": 0.2, "hyperlink": 0.15,
+    "separated_identical": {"para_mark_rev": 0.08, "fmt": 0.35, "split_identical": 0.5, "bookmark": 0.2, "inline_other": 0.2, "proof": 0.2, "hyperlink": 0.15,
                             "comment": 0.25, "ins": 0.25, "del": 0.2, "opaque": 0.15, "empty_run": 0.1, "field": 0.1},
 }
 
